@@ -27,6 +27,7 @@
 
 use std::net::{IpAddr, Ipv4Addr, Ipv6Addr};
 
+#[allow(deprecated)]
 use hickory_proto::dnssec::rdata::key::{KeyTrust, KeyUsage, Protocol, UpdateScope};
 use hickory_proto::dnssec::rdata::{DNSSECRData, SigInput, CDNSKEY, CDS, DNSKEY, DS, KEY, NSEC, NSEC3, NSEC3PARAM, RRSIG};
 use hickory_proto::dnssec::{Algorithm, DigestType, Nsec3HashAlgorithm, PublicKeyBuf, SupportedAlgorithms};
